@@ -215,3 +215,108 @@ def case_insensitive_build_is_equivalent(spec: dict) -> bool:
                 if seen.setdefault(x.casefold(), i) != i:
                     return False
     return True
+
+
+def _fresh(taken: set, stem: str, forbidden: str = "") -> str:
+    """A string that is not in ``taken`` and does not contain ``forbidden`` (deterministic; registers it in ``taken``)."""
+    i = 0
+    while True:
+        cand = f"{stem}{i}"
+        i += 1
+        if cand not in taken and (not forbidden or forbidden not in cand):
+            taken.add(cand)
+            return cand
+
+
+def mk_bystander(spec: dict) -> Converter:
+    """The converter of ``spec`` built at once and then *used as an input* of every derivation (chain in both positions,
+    get_subconverter, remap_curie_prefixes with applicable / inapplicable / empty remappings, remap_uri_prefixes, rewire,
+    discover) - several of them twice - whose results are afterwards mutated by add_record(merge=True) calls that bring
+    new synonyms into every inherited record. None of that may change what the original denotes (C10), so it must still
+    answer exactly like ``Converter(records)``. Exceptions raised by the by-standing operations are not this helper's
+    business and are ignored."""
+    d = spec.get("delimiter", ":")
+    recs = spec["records"]
+    c = mk_converter(spec)
+    taken_p = {x for r in recs for x in [r["prefix"], *r["prefix_synonyms"]]}
+    taken_u = {x for r in recs for x in [r["uri_prefix"], *r["uri_prefix_synonyms"]]}
+
+    def overlapping():
+        return [Record(prefix=r["prefix"], uri_prefix=r["uri_prefix"], prefix_synonyms=[_fresh(taken_p, "by", d)],
+                       uri_prefix_synonyms=[_fresh(taken_u, "bystander://u")]) for r in recs]
+
+    def disturb(derived):
+        for rec in overlapping():
+            try:
+                derived.add_record(rec, merge=True)
+            except Exception:  # noqa: BLE001
+                pass
+
+    def attempt(fn):
+        try:
+            out = fn()
+        except Exception:  # noqa: BLE001
+            return
+        if isinstance(out, Converter) and out is not c:
+            disturb(out)
+
+    other = lambda: Converter(overlapping(), delimiter=d)  # noqa: E731
+    attempt(lambda: curies.chain([c, other()]))
+    attempt(lambda: curies.chain([other(), c]))
+    attempt(lambda: curies.chain([c, other()], case_sensitive=False))
+    attempt(lambda: c.get_subconverter(sorted(taken_p)))
+    attempt(lambda: c.get_subconverter(iter([r["prefix"] for r in recs[:1]])))
+    first_p = recs[0]["prefix"] if recs else "zz"
+    first_u = recs[0]["uri_prefix"] if recs else "zz"
+    for _ in range(2):
+        attempt(lambda: curies.remap_curie_prefixes(c, {}))
+        attempt(lambda: curies.remap_curie_prefixes(c, {_fresh(taken_p, "unk", d): _fresh(taken_p, "tgt", d)}))
+        attempt(lambda: curies.remap_curie_prefixes(c, {first_p: "byrenamed"}))
+        attempt(lambda: curies.remap_uri_prefixes(c, {first_u: "bystander://remapped/"}))
+        attempt(lambda: curies.remap_uri_prefixes(c, {}))
+        attempt(lambda: curies.rewire(c, {first_p: "bystander://rewired/"}))
+    attempt(lambda: curies.discover([first_u + "1", first_u + "2", "bystander://d/1", "bystander://d/2"], converter=c, cutoff=1))
+    return c
+
+
+def mk_ci_incremental(spec: dict, queries=None) -> Converter | None:
+    """The converter of ``spec`` grown string by string with case_sensitive=False merges - or None where that is not
+    equivalent to the case-sensitive build (two different records equal up to case)."""
+    if not case_insensitive_build_is_equivalent(spec):
+        return None
+    return mk_incremental_queried(spec, range(len(spec["records"])), queries or (lambda c: None), case_sensitive=False)
+
+
+def mk_remerged(spec: dict) -> Converter | None:
+    """The converter of ``spec`` built at once, after which every record is merged into itself again with
+    case_sensitive=False (its bare canonical pair, then one synonym on each side, then the whole record): nothing new
+    arrives, so nothing may change - in particular strings of the record that differ only by case must all survive.
+    None where a case-insensitive merge would be ambiguous (two different records equal up to case)."""
+    if not case_insensitive_build_is_equivalent(spec):
+        return None
+    c = mk_converter(spec)
+    for r in spec["records"]:
+        c.add_record(mk_bare_record(r["prefix"], r["uri_prefix"]), merge=True, case_sensitive=False)
+        for syn in r["prefix_synonyms"][:1]:
+            c.add_prefix(syn, r["uri_prefix"], merge=True, case_sensitive=False)
+        for syn in r["uri_prefix_synonyms"][-1:]:
+            c.add_record(mk_bare_record(r["prefix"], syn), merge=True, case_sensitive=False)
+        c.add_record(mk_record(r), merge=True, case_sensitive=False)
+    return c
+
+
+def history_variants(spec: dict, queries=None, *, base: bool = True):
+    """(label, converter) pairs: the converter denoted by ``spec`` reached through every history this harness knows. All
+    of them must answer every query identically (C05 / C09 / C10); the scalar properties are checked on each."""
+    n = len(spec["records"])
+    if base:
+        yield "built at once", mk_converter(spec)
+    yield "built incrementally with interleaved queries", mk_incremental_queried(spec, list(reversed(range(n))), queries or (lambda c: None))
+    yield "built by merging whole records that are named after a synonym", mk_split_merge(spec)
+    ci = mk_ci_incremental(spec, queries)
+    if ci is not None:
+        yield "built incrementally with case-insensitive merges", ci
+    rm = mk_remerged(spec)
+    if rm is not None:
+        yield "built at once, then every record merged into itself again case-insensitively", rm
+    yield "built at once, then used as input of chain / get_subconverter / remap_* / rewire / discover whose results were mutated", mk_bystander(spec)
